@@ -330,11 +330,22 @@ def thread_jumps(raw, rounds=8):
         progress = False
         for b in list(blocks):
             t = b["term"]
-            if t["k"] not in ("goto", "drop") or b.get("cleanup") or t.get("target") is None:
+            own_stmts = b["stmts"]
+            if t["k"] == "call" and not b.get("cleanup") and t.get("target") is not None and not t["dest"]["p"] and \
+                    norm(t["f"].get("def") or "") == "std::ops::FromResidual::from_residual":
+                # what `?` hands back early is always the failing variant of the function's own result type
+                who = str(t["f"].get("resolved") or "") + str(t["f"].get("written") or "")
+                var = "Err" if who.startswith(("<std::result::Result<", "<core::result::Result<")) else \
+                    ("None" if who.startswith(("<std::option::Option<", "<core::option::Option<")) else None)
+                if var is None:
+                    continue
+                own_stmts = [{"k": "assign", "place": {"l": t["dest"]["l"], "p": []},
+                              "rv": {"k": "aggregate", "agg": "adt", "adt": "?", "variant": var, "fields": []}}]
+            elif t["k"] not in ("goto", "drop") or b.get("cleanup") or t.get("target") is None:
                 continue
             chain = []
             cur = t["target"]
-            stmts = list(b["stmts"])
+            stmts = list(own_stmts)
             hit = None
             for _hop in range(8):
                 m = blocks[cur]
@@ -370,15 +381,15 @@ def thread_jumps(raw, rounds=8):
                     progress = True
                     changed += 1
                 continue
-            if not _const_env(b["stmts"]):
+            if not _const_env(own_stmts):
                 continue          # nothing constant set here: not a boolean-temporary join
             extra = []
             for c in chain:
                 extra += copy.deepcopy(blocks[c]["stmts"])
             if hit == t["target"] and not extra:
                 continue
-            if t["k"] == "drop":
-                # the value is dropped first; the copied (side-effect free) assignments run in a block of their own after it
+            if t["k"] in ("drop", "call"):
+                # the value is dropped (the early-return value is built) first; the copied (side-effect free) assignments run in a block of their own after it
                 blocks.append({"cleanup": False, "stmts": extra, "term": {"k": "goto", "target": hit, "span": t["span"], "threaded": True},
                                "synthetic": True})
                 b["term"] = dict(t, target=len(blocks) - 1, threaded=True)
